@@ -13,7 +13,8 @@ WIN = {"none": ("", "", []), "tumbling": ("TumblingWindow('10s')", "tumbling", [
        "counting": ("CountingWindow(5)", "counting", ["5"]), "session": ("SessionWindow('5m')", "session", ["300000ms"]), "global": ("GLOBAL WINDOW TRIGGER WHEN COUNT(*) >= 10", "global", [])}
 HAVING = {"none": ("", ""), "alias": ("{a0} > 1", "{a0}>1"), "agg": ("max(w) >= 3", None)}    # an unselected aggregate is lowered to a hidden column: only "HAVING present" is compared
 WITH = {"none": ("", "", 0, 0), "ts": ("TIMESTAMP='ts', TIMEUNIT='ms'", "ts", 1000, 0), "tsmoo": ("TIMESTAMP='evt', TIMEUNIT='ms', MAXOUTOFORDERNESS='2s'", "evt", 1000, 2000)}
-ORDER = {"none": ("", []), "one": ("{a0} DESC", ["{a0}:DESC"]), "two": ("{a0} ASC, {a1} DESC", ["{a0}:ASC", "{a1}:DESC"])}
+ORDER = {"none": ("", []), "one": ("{a0} DESC", ["{a0}:DESC"]), "two": ("{a0} ASC, {a1} DESC", ["{a0}:ASC", "{a1}:DESC"]),
+         "descbare": ("{a0} DESC, {a1}", ["{a0}:DESC", "{a1}:ASC"]), "barefirst": ("{a0}, {a1} DESC", ["{a0}:ASC", "{a1}:DESC"])}
 JOIN = {"none": ("", []), "inner": ("JOIN meta m ON k = m.k", ["meta|m|INNER|k=k"]), "left": ("LEFT JOIN meta m ON k = m.k AND t = m.tenant", ["meta|m|LEFT|k=k&t=tenant"])}
 KEYWORDS = ["SELECT", "DISTINCT", "FROM", "WHERE", "GROUP BY", "HAVING", "WITH", "ORDER BY", "LIMIT", "AND", "OR", "AS", "JOIN", "LEFT", "ON", "DESC", "ASC", "GLOBAL WINDOW TRIGGER WHEN"]
 
@@ -29,7 +30,7 @@ def build(o):
     wtxt, wtype, wparams = WIN[o["win"]]
     groups = []
     if wtxt:
-        txt += " GROUP BY g, " + wtxt
+        txt += (" GROUP BY " + wtxt + ", g") if o.get("gbl") == "wk" else (" GROUP BY g, " + wtxt)
         groups = ["g"]
     ht, hexp = HAVING[o["having"]]
     a0, a1 = (fields[1], fields[2]) if len(fields) > 2 else (fields[0], fields[0])
@@ -65,7 +66,7 @@ def relayout(txt, rng, style):
                 return {"lower": w.lower(), "mixed": "".join(c.upper() if i % 2 else c.lower() for i, c in enumerate(w)), "upper": w.upper()}[style[0]]
             p = re.sub(r"\b%s\b" % kw.replace(" ", r"\s+"), rep, p)
         if style[1] == "wide":
-            p = re.sub(r" ", lambda m: rng.choice(["  ", " \n ", "\t", " \n\t "]), p)
+            p = re.sub(r" ", lambda m: rng.choice(["  ", " \n ", "\t", " \n\t ", "\r\n", " \r\n  ", "\r"]), p)
         elif style[1] == "tight":
             p = re.sub(r"\s*,\s*", ",", p)
             p = re.sub(r"\s*(>=|<=|!=|>|<|=)\s*", r"\1", p)
